@@ -123,6 +123,24 @@ func (f *frame) external(n *node, callee *ssa.Function, full string, args []Val,
 		}
 		return Val{T: rt}, true
 	}
+	// time.Time getters: uninterpreted functions of the (opaque) time value, within the
+	// ranges the library documents
+	if strings.HasPrefix(full, "(time.Time).") && len(args) >= 1 && len(args[0].C) == 1 {
+		type rng struct{ lo, hi int64 }
+		ranges := map[string]rng{"Month": {1, 12}, "Day": {1, 31}, "Hour": {0, 23}, "Minute": {0, 59}, "Second": {0, 59}, "Nanosecond": {0, 999999999},
+			"YearDay": {1, 366}, "Weekday": {0, 6}}
+		name := strings.TrimPrefix(full, "(time.Time).")
+		if name == "Year" || ranges[name].hi != 0 {
+			x.note("trusted: time.Time getters are pure functions of the time value with the documented ranges (Month 1-12, Day 1-31, Hour 0-23, Minute/Second 0-59, Nanosecond 0-999999999)")
+			x.g.Raw("sort:"+opaqueSort("time.Time"), "(declare-sort "+opaqueSort("time.Time")+" 0)")
+			fn := g.Fun("time:"+name, []string{opaqueSort("time.Time")}, SortBV64)
+			t := g.Fresh(SortBV64, "("+fn+" "+args[0].C[0]+")")
+			if r, ok := ranges[name]; ok {
+				g.Assume(and("(bvsle "+bvLit(uint64(r.lo), 64)+" "+t+")", "(bvsle "+t+" "+bvLit(uint64(r.hi), 64)+")"))
+			}
+			return Val{T: rt, C: []string{t}}, true
+		}
+	}
 	if r, ok := f.bigIntModel(n, callee, full, args, in); ok {
 		return r, true
 	}
